@@ -142,6 +142,9 @@ pub struct Scenario {
     pub writer: Vec<WOp>,
     /// (index of the writer op, k-th scheduling point within that op) at which the writer stops.
     pub stops: Vec<(usize, u64)>,
+    /// (index of the writer op, k-th scheduling point within it, n): the writer stalls there until
+    /// n more reader calls have completed (a descheduled daemon, not a dead one).
+    pub pauses: Vec<(usize, u64, u64)>,
     pub readers: Vec<ReaderProg>,
     /// Probability denominators of switching away at a point, for the writer and for readers.
     pub writer_den: u64,
@@ -155,6 +158,7 @@ impl Scenario {
             "start": self.start.to_json(),
             "writer": self.writer.iter().map(|o| match o { WOp::New => "new", WOp::Publish => "publish" }).collect::<Vec<_>>(),
             "stops": self.stops.iter().map(|(a, b)| json!([a, b])).collect::<Vec<_>>(),
+            "pauses": self.pauses.iter().map(|(a, b, c)| json!([a, b, c])).collect::<Vec<_>>(),
             "readers": self.readers.iter().map(|r| json!({"start_after_p": r.start_after_p, "calls": r.calls})).collect::<Vec<_>>(),
             "writer_den": self.writer_den,
             "reader_den": self.reader_den,
@@ -167,6 +171,7 @@ impl Scenario {
             start: Start::from_json(&v["start"]),
             writer: v["writer"].as_array().unwrap().iter().map(|o| if o.as_str().unwrap() == "new" { WOp::New } else { WOp::Publish }).collect(),
             stops: v["stops"].as_array().unwrap().iter().map(|s| (s[0].as_u64().unwrap() as usize, s[1].as_u64().unwrap())).collect(),
+            pauses: v["pauses"].as_array().map(|a| a.iter().map(|s| (s[0].as_u64().unwrap() as usize, s[1].as_u64().unwrap(), s[2].as_u64().unwrap())).collect()).unwrap_or_default(),
             readers: v["readers"].as_array().unwrap().iter().map(|r| ReaderProg { start_after_p: r["start_after_p"].as_u64().unwrap(), calls: r["calls"].as_u64().unwrap() as u32 }).collect(),
             writer_den: v["writer_den"].as_u64().unwrap(),
             reader_den: v["reader_den"].as_u64().unwrap(),
@@ -184,6 +189,8 @@ enum Wait {
     /// Runnable once P >= n or the writer is done.
     Published(u64),
     WriterDone,
+    /// Runnable once n reader calls have completed in total.
+    ReaderCalls(u64),
 }
 
 struct TaskSt {
@@ -214,6 +221,7 @@ impl St {
                 Wait::None => true,
                 Wait::Published(n) => self.monitor.p >= n || self.writer_done,
                 Wait::WriterDone => self.writer_done,
+                Wait::ReaderCalls(n) => self.monitor.counters.calls >= n,
             }
     }
 
@@ -270,8 +278,15 @@ impl Shared {
             drop(st);
             std::panic::panic_any(AbortToken);
         }
-        // Once the writer is gone readers cannot influence each other any more: let each run on.
-        if st.writer_done && me != 0 {
+        // Once the writer is gone (or stalled) readers cannot influence each other any more: let
+        // each run on, and give the token back to a stalled writer as soon as it may continue.
+        if me != 0 && (st.writer_done || matches!(st.tasks[0].wait, Wait::ReaderCalls(_))) {
+            if !st.writer_done && st.runnable(0) {
+                st.switches += 1;
+                st.current = 0;
+                self.cv.notify_all();
+                drop(self.wait_turn(st, me));
+            }
             return;
         }
         let den = st.dens[me];
@@ -314,7 +329,12 @@ impl Shared {
         }
         match st.pick_other(me) {
             Some(next) => st.current = next,
-            None => st.current = NOBODY,
+            None => {
+                // Nobody is runnable: if a task is still waiting for a condition that can no longer
+                // come true (e.g. a stalled writer waiting for reader calls), let it carry on.
+                let waiting = (0..st.tasks.len()).find(|t| *t != me && st.tasks[*t].alive);
+                st.current = waiting.unwrap_or(NOBODY);
+            }
         }
         self.cv.notify_all();
     }
@@ -357,6 +377,7 @@ struct WriterLocal {
     op_name: &'static str,
     points_in_op: u64,
     stop_at: Option<u64>,
+    pause_at: Option<(u64, u64)>,
     in_write: bool,
     words_started: bool,
     observer: GenObserver,
@@ -548,6 +569,7 @@ fn writer_task(shared: &Arc<Shared>, sc: &Scenario, path: &Path, record_sites: b
         op_name: "",
         points_in_op: 0,
         stop_at: None,
+        pause_at: None,
         in_write: false,
         words_started: false,
         observer: GenObserver { file: None, path: path.to_path_buf() },
@@ -593,6 +615,15 @@ fn writer_task(shared: &Arc<Shared>, sc: &Scenario, path: &Path, record_sites: b
                     drop(w);
                     std::panic::panic_any(StopToken);
                 }
+                if let Some((k, n)) = w.pause_at {
+                    if k == w.points_in_op {
+                        drop(w);
+                        let target = sh.with_monitor(|m| m.counters.calls) + n;
+                        sh.with_monitor(|m| m.note(format!("writer stalls at {}[{}] until {} reader calls have completed", p.site, p.word, target)));
+                        sh.block(0, Wait::ReaderCalls(target));
+                        return;
+                    }
+                }
             }
             sh.yield_point(0, site_hash(p.site, p.word));
         })));
@@ -611,6 +642,7 @@ fn writer_task(shared: &Arc<Shared>, sc: &Scenario, path: &Path, record_sites: b
             w.op_name = if kind == WOp::New { "new" } else { "write" };
             w.points_in_op = 0;
             w.stop_at = stop_at;
+            w.pause_at = sc.pauses.iter().find(|(o, _, _)| *o == op).map(|(_, k, n)| (*k, *n));
             w.in_write = kind == WOp::Publish;
             w.words_started = false;
             w.stopped_site = None;
